@@ -1,10 +1,35 @@
 # C06 registry entry (M is injected by lib/props.py)
 PROP = dict(
     title="Matrix inversion returns a true inverse, or a clean singular outcome",
-    rule="TODO",
-    assumptions=[],
-    technique="TODO",
-    level_text="TODO",
-    level_note="TODO",
+    rule=("Every case is one Matrix22/33/44 (float and double are separate sub-checks) pushed through all spellings: inverse(), "
+          "inverse(false), inverse(true), invert(), invert(false), invert(true) and, for 3x3/4x4, the same six gjInverse/gjInvert forms "
+          "(throwing forms inside try/catch; a throw of std::invalid_argument counts as the singular outcome). "
+          "accuracy_*: dimension = idx mod 3, generator kind = (idx/3) mod 8 {dense random, graded cond 10^k up to 10^(2.1*digits) built as "
+          "U diag(s) V^T, two small singular values (1,10^-a,10^-b), integer lattice, unimodular lattice (|det| exactly 1), "
+          "signed-permutation matrices needing pivoting, |det| = (1+d)^n around 1, scale sweep 2^-20..2^20} x {full, affine embedding "
+          "(every 5th affine one with a last column that only looks affine)}; the reference inverse is Gauss-Jordan with full pivoting in "
+          "long double (float) / __float128 (double); judged: max|X-Xref| <= C*cond_inf*eps*||Xref||_inf while C*cond*eps <= 1/2, "
+          "no inf/NaN while cond < 1/(16 eps^2), in-place form bit-identical to its value form. Results of the 3x3 cofactor path on "
+          "inputs with amplification ||B||_inf^2/||adj B||_inf > 8 that miss the bound by at most that amplification get the key suffix "
+          ":sv_gap (known finding). "
+          "singular_*: integer lattices with int64 determinant 0 (dependent row, rank 1, duplicate column, zero) scaled by 2^e, and "
+          "zero row / zero column / identical rows / power-of-two multiple row with lattice or random-float entries; determinant paths "
+          "must return the identity when all products are exact, Gauss-Jordan must when a zero pivot is structurally certain, otherwise "
+          "finite-or-identity. overflow_guard_*: signed permuted power-of-two diagonal blocks with exact quotient 2^Q around the "
+          "overflow threshold and |det| = 2^D around 1. affine_continuity_*: affine M vs M' with one last-column entry moved by one ulp. "
+          "Distinct = hash of the matrix bits (lower bound, capped by the framework); every generated case is non-trivial except exactly "
+          "singular draws of the accuracy generators (skipped and counted)."),
+    assumptions=["long double / libquadmath __float128 arithmetic is correct (reference inverse; its own error ~cond*1e-19 resp. cond*1e-34 is negligible against the bounds)",
+                 "cond is the infinity-norm condition number of the stored array; accuracy is judged only while C*cond*eps <= 1/2 (first-order regime) - beyond it only finiteness is required up to cond 1/(16 eps^2)",
+                 "in the band max/8 <= |cofactor/det| <= max with |det| < 1 either the identity or the exact inverse is accepted (the library's guard is conservative by max*min ~ 4)",
+                 "results of the 3x3 cofactor path on inputs with amplification > 8 are classified under the recorded known finding *:sv_gap",
+                 "gcc on x86-64 without FMA contraction; other compilers' code generation is not observed"],
+    technique=("class-directed random execution of all 12 inversion spellings against a full-pivoting Gauss-Jordan reference in a wider type; exact "
+               "integer-lattice oracle for singular outcomes; exact power-of-two oracle for the overflow guard; ASan/UBSan on a sampled sweep"),
+    level_text=("Per run 2.4*10^6 (quick) / 6*10^7 (thorough) matrices per element type through every spelling, with the condition number, "
+                "determinant branch, affine test, pivoting need and guard threshold each forced by a generator class that must be observed "
+                "(otherwise the run is inconclusive); singular and guard outcomes are judged exactly, accuracy by a calibrated multiple "
+                "(>= 8x the worst pristine ratio) of cond*eps."),
+    level_note="condition numbers, scales and perturbations are sampled on grids, not all floats; accuracy beyond cond ~ 1/(64 eps) is not judged (only finiteness)",
     monitors=[M("c06_inv", ["c06_inv_float.cpp", "c06_inv_double.cpp"], san_scale=0.05, san_scale_thorough=0.01)],
 )
